@@ -480,6 +480,11 @@ func ruleKeyFrame(p *Prog, r *Result) {
 								cur = x.Call.Args[0]
 								continue
 							}
+							if isAppendLike(x) {
+								contrib = append(contrib, x)
+								cur = x.Call.Args[0]
+								continue
+							}
 						}
 						break
 					}
@@ -490,10 +495,10 @@ func ruleKeyFrame(p *Prog, r *Result) {
 				// is this the group key? a contribution derives from convertToBytes
 				fromConv := false
 				for _, cv := range contrib {
-					if derivesFrom(cv, func(v ssa.Value) bool {
+					if mentions(cv, func(v ssa.Value) bool {
 						c, ok := v.(*ssa.Call)
 						return ok && conv != nil && c.Call.StaticCallee() == conv
-					}) {
+					}, 8) {
 						fromConv = true
 					}
 				}
@@ -539,7 +544,11 @@ func isFraming(v ssa.Value) bool {
 				found = true
 				return
 			}
-			for _, a := range y.Call.Args {
+			args := y.Call.Args
+			if isAppendLike(y) {
+				args = args[1:] // the accumulator itself is not a framing operand
+			}
+			for _, a := range args {
 				rec(a, d+1)
 			}
 		case *ssa.Slice:
